@@ -110,7 +110,8 @@ static void teardown(void) {
         live = false;
     }
 }
-/* index token: number | MAX (SIZE_MAX) | QOV (SIZE_MAX / item_size: (i+1)*item_size overflows) | QM1 (QOV-1: fits) */
+/* index token: number | MAX (SIZE_MAX) | QOV (SIZE_MAX / item_size: (i+1)*item_size overflows) | QM1 (QOV-1: fits) |
+ * WR<k> (QOV+1+k: i*item_size wraps around to less than (k+1)*item_size) */
 static size_t idx_arg(int i, long long *sym) {
     const char *t = vh_args(i);
     if (!strcmp(t, "MAX")) {
@@ -120,6 +121,11 @@ static size_t idx_arg(int i, long long *sym) {
     if (!strcmp(t, "QOV")) {
         *sym = -1;
         return isz == 1 ? SIZE_MAX : SIZE_MAX / isz;
+    }
+    if (t[0] == 'W' && t[1] == 'R') {
+        /* the smallest counts whose byte size wraps around size_t to something small: ceil(2^64 / item_size) + k */
+        *sym = -1;
+        return isz == 1 ? SIZE_MAX : SIZE_MAX / isz + 1 + (size_t)atoi(t + 2); /* 1-byte items: nothing wraps */
     }
     if (!strcmp(t, "QM1")) {
         *sym = -2;
